@@ -174,7 +174,7 @@ def history_part(ctx, prefixes, files, nsteps, seeds):
     return n_viol
 
 
-def apalache_lemmas(ctx, lemmas, modules=('MC_GVSym_5x5',), timeout=900, link=True):
+def apalache_lemmas(ctx, lemmas, modules=("MC_GVSym_5x5",), timeout=400, link=True):
     """discharge step lemmas of GVSym for EVERY content of a grid of fixed shape with Apalache
     (IndInv /\\ Next => lemma', --length=1 from --init=Init where Init == IndInv), and tie GVSym to the
     main specification with TLC (MC_SymLink).  A time-out is reported in the evidence, never as a violation."""
